@@ -153,20 +153,25 @@ def execFn (name : String) (fields : List String) : M Unit := do
   -- ---------------- round trip
   | "rt", [root, tree, text, pres, eq, pres2] =>
     let t ← treeArg tree
-    let tx ← textArg text
-    checkSer t tx
     let obs := parsePObs pres
-    -- the property monitor first (it judges the implementation), then the model comparison
-    match obs with
-    | .ok w =>
-      if !jeqCanon w t then fail s!"SPEC C01: round trip changed the data: {jvalTok (canon w)} instead of {jvalTok (canon t)}"
-      if eq != "t" then fail "SPEC C01: the re-parsed container does not Equal the original"
-      match parsePObs pres2 with
-      | .ok w2 => if !jeqCanon w2 t then fail "SPEC C01: second round trip changed the data"
-      | _ => fail s!"SPEC C01: second round trip failed: {pres2}"
-    | .err k l => fail s!"SPEC C01: ParseX(x.String()) failed: {k} {l}"
-    | .other s => fail s!"SPEC C01: {s}"
-    cmpParse "parse(String())" (modelParse root (encode tx)) obs
+    -- the two property monitors are independent: C02 judges the text, C01 what the library's own parser makes of
+    -- it; both are evaluated and both verdicts are reported (a record may violate both)
+    let c01 : Option String :=
+      match obs with
+      | .ok w =>
+        if !jeqCanon w t then some s!"SPEC C01: round trip changed the data: {jvalTok (canon w)} instead of {jvalTok (canon t)}"
+        else if eq != "t" then some "SPEC C01: the re-parsed container does not Equal the original"
+        else match parsePObs pres2 with
+          | .ok w2 => if !jeqCanon w2 t then some "SPEC C01: second round trip changed the data" else none
+          | _ => some s!"SPEC C01: second round trip failed: {pres2}"
+      | .err k l => some s!"SPEC C01: ParseX(x.String()) failed: {k} {l}"
+      | .other s => some s!"SPEC C01: {s}"
+    let c02 : Except String Str := (do let tx ← textArg text; checkSer t tx; pure tx : M Str).run' (← get)
+    match c02, c01 with
+    | .error e2, some e1 => fail s!"{e2} ;; {e1}"
+    | .error e2, none => fail e2
+    | .ok _, some e1 => fail e1
+    | .ok tx, none => cmpParse "parse(String())" (modelParse root (encode tx)) obs
   -- ---------------- parser
   | "parse", [root, hx, pres, expect] =>
     let bs ← bytesArg hx
